@@ -120,6 +120,8 @@ def parse_operations(
                 # Parse responses
                 resps: List[IRResponse] = []
                 for sc, rn_node in cast(Mapping[str, Any], node_op.get("responses", {})).items():
+                    # YAML renders an unquoted status code (200:) as an integer key
+                    sc = str(sc)
                     if (
                         isinstance(rn_node, Mapping)
                         and "$ref" in rn_node
